@@ -143,88 +143,234 @@ def rule_id_cache(ctx):
 
 
 # ------------------------------------------------------------ trotter coeffs
+# Abstract interpretation of the schedule-building expressions with a *symbolic* number of layers n.
+# A schedule is abstracted as a list of items
+#     ("one", e, w)            the single pair (e, w)
+#     ("run", lo, hi, d, w)    the pairs (k, w) for k in range(lo, hi), ascending (d = +1) or descending (d = -1)
+# where e, lo, hi are linear forms a*n + b (kept as (a, b)) and w is a folded constant.
+
+def _lin(e, nname):
+    """linear form (a, b) of an index expression in the symbol nname; None outside the fragment."""
+    if isinstance(e, ast.Constant) and isinstance(e.value, int):
+        return (0, e.value)
+    if isinstance(e, ast.Name) and e.id == nname:
+        return (1, 0)
+    if isinstance(e, ast.BinOp) and isinstance(e.op, (ast.Add, ast.Sub)):
+        l, r_ = _lin(e.left, nname), _lin(e.right, nname)
+        if l is None or r_ is None:
+            return None
+        sg = 1 if isinstance(e.op, ast.Add) else -1
+        return (l[0] + sg * r_[0], l[1] + sg * r_[1])
+    return None
+
+
+def _fold_const(e, consts):
+    """fold an arithmetic expression over numeric literals and already folded names; None if not constant."""
+    try:
+        if isinstance(e, ast.Constant) and isinstance(e.value, (int, float)):
+            return float(e.value)
+        if isinstance(e, ast.Name):
+            return consts.get(e.id)
+        if isinstance(e, ast.UnaryOp) and isinstance(e.op, ast.USub):
+            v = _fold_const(e.operand, consts)
+            return None if v is None else -v
+        if isinstance(e, ast.BinOp):
+            a, b = _fold_const(e.left, consts), _fold_const(e.right, consts)
+            if a is None or b is None:
+                return None
+            return {ast.Add: a + b, ast.Sub: a - b, ast.Mult: a * b, ast.Div: a / b, ast.Pow: a ** b}.get(type(e.op))
+    except (ZeroDivisionError, OverflowError, ValueError):
+        return None
+    return None
+
+
+def _range_of(it, nname):
+    """(lo, hi, direction) of `range(E)`, `range(A, B)` or `reversed(range(...))`."""
+    d = 1
+    if isinstance(it, ast.Call) and isinstance(it.func, ast.Name) and it.func.id == "reversed" and len(it.args) == 1:
+        d, it = -1, it.args[0]
+    if isinstance(it, ast.Call) and isinstance(it.func, ast.Name) and it.func.id == "range" and 1 <= len(it.args) <= 2 and not it.keywords:
+        lo = (0, 0) if len(it.args) == 1 else _lin(it.args[0], nname)
+        hi = _lin(it.args[-1], nname)
+        if lo is not None and hi is not None:
+            return lo, hi, d
+    return None
+
+
+def _abstract_schedule(expr, nname, consts, schedules):
+    """abstract value of a schedule-building expression; raises AnalysisError outside the fragment."""
+    def pair_item(elt, loopvar, rng, scale=1.0):
+        if not (isinstance(elt, ast.Tuple) and len(elt.elts) == 2):
+            raise AnalysisError(f"schedule element `{src_of(elt)}` is not a (layer, fraction) pair")
+        w = _fold_const(elt.elts[1], consts)
+        if w is None:
+            raise AnalysisError(f"fraction `{src_of(elt.elts[1])}` is not a constant")
+        if rng is not None and isinstance(elt.elts[0], ast.Name) and elt.elts[0].id == loopvar:
+            return ("run", rng[0], rng[1], rng[2], w * scale)
+        e = _lin(elt.elts[0], nname)
+        if e is None or rng is not None:
+            raise AnalysisError(f"layer expression `{src_of(elt.elts[0])}` not understood")
+        return ("one", e, w * scale)
+
+    def of_comp(c):
+        if len(c.generators) == 1 and not c.generators[0].ifs and isinstance(c.generators[0].target, ast.Name):
+            rng = _range_of(c.generators[0].iter, nname)
+            if rng is None:
+                raise AnalysisError(f"iteration `{src_of(c.generators[0].iter)}` is not a range")
+            return [pair_item(c.elt, c.generators[0].target.id, rng)]
+        # nested: for f in (w1, ..., wm) for k, frac in <schedule name>  with element (k, frac * f)
+        if len(c.generators) == 2 and isinstance(c.generators[0].target, ast.Name) and isinstance(c.generators[0].iter, (ast.Tuple, ast.List)):
+            fvar = c.generators[0].target.id
+            ws = [_fold_const(x, consts) for x in c.generators[0].iter.elts]
+            g2 = c.generators[1]
+            if None in ws or not (isinstance(g2.iter, ast.Name) and g2.iter.id in schedules and isinstance(g2.target, ast.Tuple) and len(g2.target.elts) == 2):
+                raise AnalysisError(f"nested schedule comprehension `{src_of(c)[:80]}` not understood")
+            kvar, frvar = (e.id if isinstance(e, ast.Name) else None for e in g2.target.elts)
+            elt = c.elt
+            ok = (isinstance(elt, ast.Tuple) and len(elt.elts) == 2 and isinstance(elt.elts[0], ast.Name) and elt.elts[0].id == kvar
+                  and isinstance(elt.elts[1], ast.BinOp) and isinstance(elt.elts[1].op, ast.Mult)
+                  and {getattr(elt.elts[1].left, "id", None), getattr(elt.elts[1].right, "id", None)} == {frvar, fvar})
+            if not ok:
+                raise AnalysisError(f"nested schedule element `{src_of(elt)}` is not (layer, fraction * weight)")
+            out = []
+            for w in ws:
+                for it in schedules[g2.iter.id]:
+                    out.append(it[:-1] + (it[-1] * w,))
+            return out, ws
+        raise AnalysisError(f"schedule comprehension `{src_of(c)[:80]}` not understood")
+
+    if isinstance(expr, ast.ListComp):
+        res = of_comp(expr)
+        return res if isinstance(res, tuple) else (res, None)
+    if isinstance(expr, ast.List):
+        items = []
+        for e in expr.elts:
+            if isinstance(e, ast.Starred) and isinstance(e.value, (ast.GeneratorExp, ast.ListComp)):
+                res = of_comp(e.value)
+                items += res[0] if isinstance(res, tuple) else res
+            elif isinstance(e, ast.Tuple):
+                items.append(pair_item(e, None, None))
+            else:
+                raise AnalysisError(f"schedule list element `{src_of(e)[:60]}` not understood")
+        return items, None
+    raise AnalysisError(f"schedule expression `{src_of(expr)[:80]}` not understood")
+
+
+def _coverage_problems(items):
+    """for symbolic n: case split n = 1 / n >= 2 on the ordering of the end points; sums of weights per layer."""
+    problems = []
+    for n in (1, 2, 3):  # representatives of the orderings of {0, n-1, n} (n = 1: 0 = n-1 < n; n >= 2: 0 < n-1 < n; 3 guards interior points)
+        val = lambda lf: lf[0] * n + lf[1]
+        tot = [0.0] * n
+        for it in items:
+            if it[0] == "one":
+                k = val(it[1])
+                if not 0 <= k < n:
+                    problems.append(f"layer {src_lin(it[1])} is outside range(nlayers)")
+                    continue
+                tot[k] += it[2]
+            else:
+                for k in range(val(it[1]), val(it[2])):
+                    if not 0 <= k < n:
+                        problems.append("a run leaves range(nlayers)")
+                        break
+                    tot[k] += it[4]
+        if any(abs(x - 1.0) > 1e-12 for x in tot):
+            problems.append(f"fractions per layer sum to {[round(x, 6) for x in tot]} (ordering case nlayers {'= 1' if n == 1 else '>= 2'})")
+    return sorted(set(problems))
+
+
+def src_lin(lf):
+    a, b = lf
+    return (f"{a}*n" if a else "") + (f"{b:+d}" if b or not a else "")
+
+
+def _reverse(items):
+    out = []
+    for it in reversed(items):
+        out.append(it if it[0] == "one" else ("run", it[1], it[2], -it[3], it[4]))
+    return out
+
+
+def _same(a, b):
+    if len(a) != len(b):
+        return False
+    for x, y in zip(a, b):
+        if x[:-1] != y[:-1] or abs(x[-1] - y[-1]) > 1e-12:
+            return False
+    return True
+
+
 def rule_trotter_coeffs(ctx):
     r = RuleResult(
         "trotter-coeffs",
-        "constant folding of trotter_schedule: order 1 applies each layer with fraction 1; the order-2 list is "
-        "(k, 1/2) ascending over the first n-1 layers, (n-1, 1), (k, 1/2) descending — palindromic, every layer "
-        "sums to 1; the order-4 weights (s, s, 1-4s, s, s) with the folded s satisfy sum w = 1 and sum w^3 = 0 and "
-        "multiply the order-2 fractions; unsupported orders raise",
+        "abstract interpretation of trotter_schedule with a symbolic number of layers n (schedules abstracted as lists of "
+        "single pairs and ascending / descending runs with linear bounds in n and folded constant fractions): for every "
+        "supported order each layer's fractions sum to 1 (finite case split on the ordering of the run end points); order 1 "
+        "is one ascending run over range(n); orders 2 and 4 are palindromic (time-symmetric); the order-4 schedule is five "
+        "scaled copies of the order-2 one whose folded weights satisfy sum w = 1 and sum w^3 = 0; any other order raises",
     )
     f = ctx.prog.func(TEBDAG, "trotter_schedule")
+    if f is None:
+        raise AnalysisError("trotter_schedule not found")
     where = f"{f.module.relpath}:{f.lineno}"
+    nname = f.node.args.args[0].arg
     branches = {}
     tail_raise = False
     for st in f.node.body:
-        if isinstance(st, ast.If) and isinstance(st.test, ast.Compare) and src_of(st.test.left) == "order":
+        if isinstance(st, ast.If) and isinstance(st.test, ast.Compare) and isinstance(st.test.left, ast.Name) and st.test.left.id == "order" and isinstance(st.test.ops[0], ast.Eq):
             branches[const_value(st.test.comparators[0], None)] = st.body
         if isinstance(st, ast.Raise):
             tail_raise = True
     if set(branches) != {1, 2, 4}:
         raise AnalysisError(f"trotter_schedule: orders dispatched are {sorted(branches)}")
-    if tail_raise:
-        r.ok("trotter_schedule[else]")
+    if tail_raise and isinstance(f.node.body[-1], ast.Raise):
+        r.ok("trotter_schedule[else]", nontrivial=False)
     else:
         r.bad(Finding("trotter-coeffs", "trotter_schedule", "unsupported orders are not rejected", where=where, operand="else"))
-    # order 1
-    ret = next((s for s in branches[1] if isinstance(s, ast.Return)), None)
-    s1 = src_of(ret.value).replace(" ", "") if ret else ""
-    if s1 == "[(k,1.0)forkinrange(nlayers)]":
-        r.ok("trotter_schedule[1]", sample={"order": 1, "schedule": src_of(ret.value)})
-    else:
-        r.bad(Finding("trotter-coeffs", "trotter_schedule", f"order 1 schedule is `{s1}`", where=where, operand="1"))
-    # order 2
-    ret = [s for s in branches[2] if isinstance(s, ast.Return)][-1]
-    ok2 = False
-    if isinstance(ret.value, ast.List) and len(ret.value.elts) == 3:
-        a, b, c = ret.value.elts
-        sa = src_of(a).replace(" ", "")
-        sb = src_of(b).replace(" ", "")
-        sc = src_of(c).replace(" ", "")
-        ok2 = (
-            sa == "*((k,0.5)forkinrange(nlayers-1))" and sb == "(nlayers-1,1.0)"
-            and sc == "*((k,0.5)forkinreversed(range(nlayers-1)))"
-        )
-    if ok2:
-        r.ok("trotter_schedule[2]", sample={"order": 2, "schedule": "ascending halves, full last layer, descending halves"})
-    else:
-        r.bad(Finding("trotter-coeffs", "trotter_schedule", f"order 2 schedule is not the symmetric half/full/half list: {src_of(ret.value)[:120]}", where=where, operand="2"))
-    # order 4: fold s and the weights
-    env = ConstEnv.__new__(ConstEnv)
-    env.env = {}
-    env.module = None
-    for s in branches[4]:
-        if isinstance(s, ast.Assign):
-            try:
-                env.stmt(s)
-            except Exception:
-                pass
-    sval = env.get("s")
-    ret = next((s for s in branches[4] if isinstance(s, ast.Return)), None)
-    weights = None
-    structure_ok = False
-    if ret is not None and isinstance(ret.value, ast.ListComp) and len(ret.value.generators) == 2:
-        g1, g2 = ret.value.generators
-        weights = env.ev(g1.iter)
-        elt = src_of(ret.value.elt).replace(" ", "")
-        structure_ok = (
-            src_of(g1.target) == "f" and src_of(g2.iter) == "order2" and elt in ("(k,frac*f)", "(k,f*frac)")
-            and src_of(g2.target).replace(" ", "").strip("()") == "k,frac"
-        )
-        o2 = next((x for x in branches[4] if isinstance(x, ast.Assign) and src_of(x.targets[0]) == "order2"), None)
-        structure_ok = structure_ok and o2 is not None and src_of(o2.value).replace(" ", "") == "trotter_schedule(nlayers,order=2)"
-    if sval is UNKNOWN or weights is UNKNOWN or weights is None:
-        raise AnalysisError("trotter_schedule: order-4 weights could not be folded")
-    w = list(weights)
-    e1 = abs(sum(w) - 1.0)
-    e3 = abs(sum(x ** 3 for x in w))
-    sym = w == w[::-1]
-    if e1 < 1e-12 and e3 < 1e-12 and sym and len(w) == 5 and structure_ok:
-        r.ok("trotter_schedule[4]", sample={"order": 4, "s": sval, "weights": w, "sum": sum(w), "sum_cubes": sum(x ** 3 for x in w)})
-    else:
-        r.bad(Finding("trotter-coeffs", "trotter_schedule",
-                      f"order 4 weights {w}: |sum-1|={e1:.2e}, |sum cubes|={e3:.2e}, symmetric={sym}, structure_ok={structure_ok}",
-                      where=where, operand="4"))
+    abstract = {}
+    weights4 = None
+    for order in (1, 2, 4):
+        body = branches[order]
+        consts, scheds = {}, {}
+        for st in body:
+            if isinstance(st, ast.Assign) and isinstance(st.targets[0], ast.Name):
+                v = _fold_const(st.value, consts)
+                if v is not None:
+                    consts[st.targets[0].id] = v
+                elif isinstance(st.value, ast.Call) and isinstance(st.value.func, ast.Name) and st.value.func.id == f.name:
+                    o = next((const_value(k.value, None) for k in st.value.keywords if k.arg == "order"), const_value(st.value.args[1], None) if len(st.value.args) > 1 else 2)
+                    a0 = st.value.args[0] if st.value.args else None
+                    if o in abstract and isinstance(a0, ast.Name) and a0.id == nname:
+                        scheds[st.targets[0].id] = abstract[o]
+                    else:
+                        raise AnalysisError(f"trotter_schedule: recursive use `{src_of(st.value)}` not understood")
+        rets = [st for st in body if isinstance(st, ast.Return)]
+        if not rets:
+            raise AnalysisError(f"trotter_schedule: order {order} has no return")
+        items, ws = _abstract_schedule(rets[-1].value, nname, consts, scheds)
+        abstract[order] = items
+        if order == 4:
+            weights4 = ws
+        problems = _coverage_problems(items)
+        if order == 1 and not (len(items) == 1 and items[0][0] == "run" and items[0][1] == (0, 0) and items[0][2] == (1, 0) and items[0][3] == 1):
+            problems.append("order 1 is not a single ascending run over range(nlayers)")
+        if order >= 2 and not _same(items, _reverse(items)):
+            problems.append("schedule is not palindromic (time-symmetric)")
+        if order == 4:
+            if not weights4 or len(weights4) != 5:
+                problems.append("order 4 is not built from five weighted order-2 sub-steps")
+            else:
+                e1, e3 = abs(sum(weights4) - 1.0), abs(sum(w ** 3 for w in weights4))
+                if e1 > 1e-12 or e3 > 1e-12:
+                    problems.append(f"sub-step weights {[round(w, 6) for w in weights4]}: |sum - 1| = {e1:.2e}, |sum of cubes| = {e3:.2e} (fourth order needs both to vanish)")
+        if problems:
+            for pr in problems:
+                r.bad(Finding("trotter-coeffs", "trotter_schedule", f"order {order}: {pr}", where=where, operand=str(order)))
+        else:
+            r.ok(f"trotter_schedule[{order}]", sample={"order": order, "abstract schedule": [
+                (it[0], src_lin(it[1]), round(it[2], 6)) if it[0] == "one" else (it[0], src_lin(it[1]), src_lin(it[2]), "asc" if it[3] > 0 else "desc", round(it[4], 6))
+                for it in items][:6], **({"weights": weights4} if order == 4 else {})})
     return r
 
 
